@@ -7,8 +7,10 @@ import NurbsVerif.Driver.Equality
 import NurbsVerif.Driver.Weights
 import NurbsVerif.Driver.Mesh
 import NurbsVerif.Driver.Predicates
+import NurbsVerif.Driver.Fitting
+import NurbsVerif.Driver.Exchange
 namespace Drv
-def handlers : List (List String → Option String) := [handleBasic, handleShape, handleDegree, handleLinalg, handleLayout, handleEquality, handleWeights, handleMesh, handlePredicates]
+def handlers : List (List String → Option String) := [handleBasic, handleShape, handleDegree, handleLinalg, handleLayout, handleEquality, handleWeights, handleMesh, handlePredicates, handleFitting, handleExchange]
 def step (line : String) : String :=
   let toks := (line.trimAscii.toString.splitOn " ").filter (· ≠ "")
   match handlers.findSome? (fun h => h toks) with
